@@ -113,6 +113,9 @@ Universe ==
                                   Ins("CMP", <<ML(w, 0, -1, d), Im(1, "d")>>)} : w \in W, r \in {0, 3}, d \in {0, 2}}
                           \cup {Ins("LGDT", <<ML(0, 0, -1, d)>>) : d \in {0, 2}}
                           \cup {Ins("MOV", <<Rg(16, 0), ML(0, 16, b, 0)>>) : b \in {3, 6}} \cup {Ins("MOV", <<Rg(32, 1), ML(0, 32, b, 4)>>) : b \in {0, 5}}
+    \* a label as immediate operand (its value depends on the origin: the driver runs these at several origins)
+    [] Part = "lblimm" -> {Ins(mn, <<Rg(w, r), [t |-> "l", nm |-> "lbl0", add |-> a]>>) : mn \in {"MOV", "ADD", "CMP"}, w \in {16, 32}, r \in Regs, a \in {0, 2}}
+                          \cup {Ins("PUSH", <<[t |-> "l", nm |-> "lbl0", add |-> 0]>>)}
     [] Part = "mem16" -> CarriersOf(Mem16(0))
     [] Part = "mem32a" -> CarriersOf({m \in Mem32(0, {-1} \cup Regs, {-1}, {1}, Disp32) : Valid32(m)})
     [] Part = "mem32b" -> CarriersOf({m \in Mem32(0, {-1} \cup Regs, Regs \ {4}, {1, 2, 4, 8}, {0, 1, -1, 127, 128, -128, -129, 305419896}) : Valid32(m)})
